@@ -494,6 +494,12 @@ func vc11CrashRetry(r *ev.R, name string, history []string) {
 		r.HarnessError("%s: %v", secName, err)
 		return
 	}
+	emptyDump, err := vc11DumpStore(ref)
+	if err != nil {
+		r.HarnessError("%s: %v", secName, err)
+		ref.close()
+		return
+	}
 	if _, err := vc11ImportReader(ref, stream); err != nil {
 		r.HarnessError("%s: clean restore failed: %v", secName, err)
 		ref.close()
@@ -576,6 +582,12 @@ func vc11CrashRetry(r *ev.R, name string, history []string) {
 						if err := st.stores[ci].DiscardForRestore(context.Background()); err != nil && rerr == nil {
 							rerr = fmt.Errorf("DiscardForRestore(%s): %w", vc11Name[ci], err)
 						}
+					}
+					// the cleanup of every restored channel must leave what a fresh store contains
+					if d, err := vc11DumpStore(st); rerr == nil && err == nil && d.Hash != emptyDump.Hash {
+						violate("C11:restore-cleanup-leaves-residue", "%s: after DiscardForRestore of every channel the store is not empty: %s", where, vc11DumpDiff(emptyDump, d))
+						st.closeStore()
+						continue
 					}
 				}
 				if rerr == nil {
